@@ -232,6 +232,78 @@ func extractFormula(path, fn string) map[string]interface{} {
 	return map[string]interface{}{"func": fn, "prog": prog, "params": params}
 }
 
+// scratchIsLocal reports, for a method of the GCM glue, whether the LAST argument of the call
+// to the named assembly routine is the address of an element of a variable declared inside
+// the method body (per-call scratch on the caller's stack) rather than of something reachable
+// from the receiver or a package-level variable (shared between concurrent calls).
+func scratchIsLocal(path, method, callee string) bool {
+	fset := token.NewFileSet()
+	f, err := parser.ParseFile(fset, path, nil, 0)
+	if err != nil {
+		fail("%v", err)
+	}
+	fd := findFunc(f, method, "g")
+	if fd == nil {
+		fail("method %s not found in %s", method, path)
+	}
+	locals := map[string]bool{}
+	ast.Inspect(fd.Body, func(n ast.Node) bool {
+		switch v := n.(type) {
+		case *ast.DeclStmt:
+			if gd, ok := v.Decl.(*ast.GenDecl); ok {
+				for _, sp := range gd.Specs {
+					if vs, ok := sp.(*ast.ValueSpec); ok {
+						for _, nm := range vs.Names {
+							locals[nm.Name] = true
+						}
+					}
+				}
+			}
+		case *ast.AssignStmt:
+			if v.Tok == token.DEFINE {
+				for _, l := range v.Lhs {
+					if id, ok := l.(*ast.Ident); ok {
+						locals[id.Name] = true
+					}
+				}
+			}
+		}
+		return true
+	})
+	found, local := false, true
+	ast.Inspect(fd.Body, func(n ast.Node) bool {
+		call, ok := n.(*ast.CallExpr)
+		if !ok {
+			return true
+		}
+		if id, ok := call.Fun.(*ast.Ident); !ok || id.Name != callee || len(call.Args) == 0 {
+			return true
+		}
+		found = true
+		arg := call.Args[len(call.Args)-1]
+		// expect &X[...]
+		un, ok := arg.(*ast.UnaryExpr)
+		if !ok || un.Op != token.AND {
+			local = false
+			return true
+		}
+		ix, ok := un.X.(*ast.IndexExpr)
+		if !ok {
+			local = false
+			return true
+		}
+		id, ok := ix.X.(*ast.Ident)
+		if !ok || !locals[id.Name] {
+			local = false
+		}
+		return true
+	})
+	if !found {
+		fail("no call to %s in %s", callee, method)
+	}
+	return local
+}
+
 func init() {
 	specials["extract"] = func(args []string) {
 		if len(args) < 1 {
@@ -243,6 +315,8 @@ func init() {
 			"scalar_chain": extractChain(repo+"/sm2/internal/fiat/addchain_sm2_64_scalar_inverse.go", "sm2ScalarFermatInvert_FiatAC"),
 			"add":          extractFormula(repo+"/sm2/internal/sm2_point.go", "Add"),
 			"double":       extractFormula(repo+"/sm2/internal/sm2_point.go", "Double"),
+			"seal_scratch_local": scratchIsLocal(repo+"/sm4/sm4_gcm_amd64.go", "Seal", "sealAsm"),
+			"open_scratch_local": scratchIsLocal(repo+"/sm4/sm4_gcm_amd64.go", "Open", "openAsm"),
 		}
 		enc, _ := json.Marshal(out)
 		os.Stdout.Write(enc)
